@@ -62,6 +62,18 @@ Definition hex_value (s : bytes) : option Z :=
 Definition hex64_value (s : bytes) : option Z :=
   match parse_hex64 s with Some m => Some (to_int64 m) | None => None end.
 
+(* the token a numeric rule produces for its lexeme; None = TOK_ERROR (the literal is rejected) *)
+Definition numeric_token (atof : bytes -> Z) (a : action) (text : bytes) : option token :=
+  match a with
+  | AFloat => let b := atof text in if b64_is_inf b then None else Some (TkFloat b)
+  | AInteger => match parse_integer text with
+                | Some v => Some (if in_int v then TkInt v else TkInt64 v) | None => None end
+  | AInteger64 => match parse_integer text with Some v => Some (TkInt64 v) | None => None end
+  | AHex => match hex_value text with Some v => Some (TkHex v) | None => None end
+  | AHex64 => match hex64_value text with Some v => Some (TkHex64 v) | None => None end
+  | _ => None
+  end.
+
 Fixpoint until_nul (s : bytes) : bytes :=
   match s with
   | [] => []
@@ -254,34 +266,11 @@ Section Lex.
                    | ARet t => tokret (TkP t)
                    | ABool v => tokret (TkBool v)
                    | AName => tokret (TkName text)
-                   | AFloat =>
-                       let b := atof text in
-                       if b64_is_inf b then
-                         let '(tk, st') := emit st line' TkError None in ([tk], StopError, st', line')
-                       else tokret (TkFloat b)
-                   | AInteger =>
-                       match parse_integer text with
+                   | AFloat | AInteger | AInteger64 | AHex | AHex64 =>
+                       match numeric_token atof (action_of actions rule) text with
+                       | Some t => tokret t
                        | None =>
                            let '(tk, st') := emit st line' TkError None in ([tk], StopError, st', line')
-                       | Some v => tokret (if in_int v then TkInt v else TkInt64 v)
-                       end
-                   | AInteger64 =>
-                       match parse_integer text with
-                       | None =>
-                           let '(tk, st') := emit st line' TkError None in ([tk], StopError, st', line')
-                       | Some v => tokret (TkInt64 v)
-                       end
-                   | AHex =>
-                       match hex_value text with
-                       | None =>
-                           let '(tk, st') := emit st line' TkError None in ([tk], StopError, st', line')
-                       | Some v => tokret (TkHex v)
-                       end
-                   | AHex64 =>
-                       match hex64_value text with
-                       | None =>
-                           let '(tk, st') := emit st line' TkError None in ([tk], StopError, st', line')
-                       | Some v => tokret (TkHex64 v)
                        end
                    | AEcho => continue (add_ev st (LvStdout text))
                    | AUnknown => ([], StopStuck, st, line')
